@@ -33,6 +33,7 @@ def main():
     ap.add_argument("--all", action="store_true")
     ap.add_argument("--tier", default="quick")
     ap.add_argument("--seed", default="1")
+    ap.add_argument("--no-rebuild", action="store_true", help="skip the rebuild of idlc and probe after the undo (sweeps: the next run rebuilds anyway; rebuild once at the end)")
     a = ap.parse_args()
     d = os.path.abspath(a.dir)
     meta = json.load(open(os.path.join(d, "meta.json")))
@@ -75,12 +76,13 @@ def main():
         # leave no binary of the changed tree behind (the checks rebuild anyway; developer tools
         # that use the cached binaries directly do not)
         sys.path.insert(0, V)
-        try:
-            from vlib import common as _C
-            _C.build_idlc("debug")
-            _C.build_probe()
-        except Exception as e:  # noqa
-            print("WARNING: rebuild after undo failed:", e)
+        if not a.no_rebuild:
+            try:
+                from vlib import common as _C
+                _C.build_idlc("debug")
+                _C.build_probe()
+            except Exception as e:  # noqa
+                print("WARNING: rebuild after undo failed:", e)
     res["detected_by"] = sorted(k for k, v in res["checks"].items() if v["rc"] == 1 and v["violation_lines"])
     json.dump(res, open(os.path.join(d, "result.json"), "w"), indent=1, sort_keys=True)
     print("detected by:", res["detected_by"])
